@@ -423,6 +423,11 @@ def _spread(loops, guards, term, out, tag):
             else:
                 _spread(loops, guards, x, out, tag)
         return
+    if isinstance(term, tuple) and term and term[0] == "idx" and term[2] == K(1) and isinstance(term[1], tuple) and term[1] \
+            and term[1][0] == "call" and str(term[1][1]).startswith("util.sort_"):
+        l = ("loop", ("spread", show(term)), "spread", term)
+        out.append((tuple(loops) + (l,), tuple(guards), ("elem", l), tag))
+        return
     if isinstance(term, tuple) and term and term[0] == "attr" and term[2] == "_z3_assertions":
         l = ("loop", ("spread", show(term)), "spread", term)
         out.append((tuple(loops) + (l,), tuple(guards), ("elem", l), tag))
